@@ -38,6 +38,12 @@ fn all_ops(mut c: HxCfg) -> HxCfg {
     c
 }
 
+fn swaps(mut c: HxCfg) -> HxCfg {
+    c.clone_swap = true;
+    c.reload_swap = true;
+    c
+}
+
 fn depth(mut c: HxCfg, d: usize) -> HxCfg {
     c.max_depth = d;
     c
@@ -118,9 +124,10 @@ fn gc_plan(prop: &'static str, tier: &str) -> Vec<HxCfg> {
         vec![
             drain(all_ops(a3(prop, "3 ids, all ops"))),
             drain(depth(a4(prop, "4 ids"), 7)),
+            drain(depth(swaps(a4(prop, "4 ids with clone- and reload-swaps")), 6)),
             drain(depth(a5(prop, "ids 1..4 in 5 slots"), 6)),
             drain(seeded5(prop, "5 ids from seeds", 3)),
-            drain(HxCfg::new(prop, "3 ids, heap-encoded data of two lengths", 2, 3, &[0, 1, 2], &[0], &[1, 6])),
+            drain(HxCfg::new(prop, "3 ids, heap-encoded data of two lengths and the empty datum", 2, 3, &[0, 1, 2], &[0], &[1, 6, 2])),
             drain(depth(a256(prop, "ids 0,5,254,255 in 256 slots, Sodg<16>"), 4)),
         ]
     } else {
@@ -132,7 +139,7 @@ fn gc_plan(prop: &'static str, tier: &str) -> Vec<HxCfg> {
             wall(drain(depth(a5(prop, "ids 1..4 in 5 slots"), 11)), 600),
             wall(drain(depth(HxCfg::new(prop, "5 ids in 5 slots", 2, 5, &[0, 1, 2, 3, 4], &[0], &[0]), 9)), 600),
             wall(drain(depth(a256(prop, "ids 0,5,254,255 in 256 slots, Sodg<16>"), 9)), 600),
-            wall(drain(HxCfg::new(prop, "3 ids, heap-encoded data of two lengths", 2, 3, &[0, 1, 2], &[0], &[1, 6])), 300),
+            wall(drain(HxCfg::new(prop, "3 ids, heap-encoded data of two lengths and the empty datum", 2, 3, &[0, 1, 2], &[0], &[1, 6, 2])), 300),
             wall(drain(depth(HxCfg::new(prop, "3 ids, Sodg<1>, 2 labels", 1, 3, &[0, 1, 2], &[0, 1], &[0]), 12)), 600),
             wall(drain(seeded5(prop, "5 ids from seeds", 5)), 600),
         ]
@@ -215,7 +222,7 @@ pub fn hx_plan(prop: &'static str, tier: &str) -> Vec<HxCfg> {
                 c
             };
             if quick(tier) {
-                vec![c(all_ops(a3(prop, "3 ids, all ops"))), c(depth(a4(prop, "4 ids"), 6)), c(depth(HxCfg::new(prop, "3 ids, heap and inline data", 2, 3, &[0, 1, 2], &[0], &[0, 1, 4]), 6)), c(seeded5(prop, "5 ids from seeds", 2))]
+                vec![c(all_ops(a3(prop, "3 ids, all ops"))), c(depth(a4(prop, "4 ids"), 6)), c(depth(HxCfg::new(prop, "3 ids, heap, inline, short-heap and empty data", 2, 3, &[0, 1, 2], &[0], &[0, 1, 4, 2]), 6)), c(seeded5(prop, "5 ids from seeds", 2))]
             } else {
                 vec![
                     wall(c(all_ops(a3(prop, "3 ids, all ops"))), 600),
@@ -260,8 +267,9 @@ pub fn hx_plan(prop: &'static str, tier: &str) -> Vec<HxCfg> {
             };
             if quick(tier) {
                 vec![
-                    l(depth(all_ops(HxCfg::new(prop, "3 ids, 2 labels (A = Sodg<2>, 3 slots)", 2, 3, &[0, 1, 2], &[0, 1], &[0])), 5), &[(2, 4), (3, 4), (16, 3), (16, 256), (7, 64)], 2),
-                    l(depth(a4(prop, "4 ids (A = Sodg<2>, 4 slots)"), 5), &[(16, 256), (2, 5), (9, 8)], 1),
+                    l(depth(all_ops(HxCfg::new(prop, "3 ids, 2 labels (A = Sodg<2>, 3 slots)", 2, 3, &[0, 1, 2], &[0, 1], &[0])), 5), &[(2, 4), (3, 4), (4, 8), (5, 16), (6, 32), (7, 64), (8, 128), (16, 3), (16, 256)], 2),
+                    l(depth(a4(prop, "4 ids (A = Sodg<2>, 4 slots)"), 5), &[(9, 8), (10, 9), (11, 17), (12, 33), (13, 65), (14, 129), (15, 255), (16, 257), (2, 512), (2, 1024)], 1),
+                    l(depth(HxCfg::new(prop, "ids 0, 300, 511 (A = Sodg<2>, 512 slots)", 2, 512, &[0, 300, 511], &[0], &[0]), 4), &[(3, 513), (16, 1024)], 1),
                     l(all_ops(HxCfg::new(prop, "3 ids, 1 label (A = Sodg<1>, 3 slots)", 1, 3, &[0, 1, 2], &[0], &[0])), &[(16, 4)], 1),
                 ]
             } else {
@@ -422,8 +430,11 @@ pub fn run_hx_plus_family(prop: &'static str, tier: &str) -> Outcome {
     let t0 = Instant::now();
     let mut o = run_hx_prop(prop, tier);
     let (acc, what) = match prop {
-        "C02" => (crate::gen::families::run_c02_family(tier), "every way to grow one group to exactly 16 members (each of the 14 joins through either bind arm: 2^14 patterns) next to a bystander group and an ungrouped vertex, data on one or two members (position derived from the pattern), put before or after the join, overwriting put, both read orders; oracle: the reference model in lock-step after every call"),
-        "C03" => (crate::gen::families::run_c03_sweep(tier), "value sweep: 8 short histories (bind, rebind, two labels, put/read twice, overwrite, re-put, collection elsewhere, grouped data) x every data length 0..=17 x 40 labels (Alpha 0/1/10/255/256/MAX, single ASCII, Greek and 4-byte characters, texts of 2..8 characters incl. near-duplicates) x Sodg<1>, Sodg<2>, Sodg<16>"),
+        "C05" => (crate::gen::families::run_c05_family(tier), "allocator families: stores of capacity 1, 2, 9, 10, 12, 17, 33, 64, 300, 1024 with 0-2 ids handed out first and a run of 0..39 explicitly added vertices right above the position, then up to 6 next_id()/add(next_id()) calls, each judged by the model that keeps the set of returned ids; plus 6 scripts with variables (succeeding and failing at different commands) x 2 capacities: the ids their variables got must not come again after the vertices are collected"),
+        "C08" => (crate::gen::families::run_swap_family("C08", Op::ReloadSwap), "k = 1..=14 groups alive (the 14th uses the last usable slot) with unread, read and ungrouped data, then save+load (once or three times in a row), then everything is read in either order; oracle: the reference model in lock-step after every call"),
+        "C10" => (crate::gen::families::run_swap_family("C10", Op::CloneSwap), "k = 1..=14 groups alive (the 14th uses the last usable slot) with unread, read and ungrouped data, then clone() (once or three times in a row), then everything is read in either order; oracle: the reference model in lock-step after every call"),
+        "C02" => (crate::gen::families::run_c02_family(tier), "14 groups alive at once formed through either bind arm with put before/after the bind and drained in both orders; and every way to grow one group to exactly 16 members (each of the 14 joins through either bind arm: 2^14 patterns) next to a bystander group and an ungrouped vertex, data on one or two members (position derived from the pattern), put before or after the join, overwriting put, both read orders; oracle: the reference model in lock-step after every call"),
+        "C03" => (crate::gen::families::run_c03_sweep(tier), "value sweep: 8 short histories (bind, rebind, two labels, put/read twice, overwrite, re-put, collection elsewhere, grouped data) x every data length 0..=17 (three contents each: mixed bytes, leading 00 / all 00, leading FF / all FF) x 40 labels (Alpha 0/1/10/255/256/MAX, single ASCII, Greek and 4-byte characters, texts of 2..8 characters incl. near-duplicates) x Sodg<1>, Sodg<2>, Sodg<16>"),
         _ => (crate::gen::families::run_c06_family(tier), "slot table at full scale: create 14 groups (all usable slots), kill a subset (2^14 occupancy patterns; quick: every third, one of the four (kill order, put-before/after-bind) combinations each; thorough: all), then 45 create-put-read cycles over a rotating set of 3 id pairs (one of them recycled ids) with the remaining 0..13 groups alive; plus runs of 150/300 cycles for every number 0..=13 of groups kept alive; oracle: the reference model in lock-step after every call"),
     };
     if acc.failures.iter().any(|f| f.signature.starts_with("machinery:")) {
@@ -488,6 +499,9 @@ pub fn run_c19(tier: &str) -> Outcome {
 pub fn run(prop: &str, tier: &str) -> Option<Outcome> {
     match prop {
         "C02" => return Some(run_hx_plus_family("C02", tier)),
+        "C05" => return Some(run_hx_plus_family("C05", tier)),
+        "C08" => return Some(run_hx_plus_family("C08", tier)),
+        "C10" => return Some(run_hx_plus_family("C10", tier)),
         "C03" => return Some(run_hx_plus_family("C03", tier)),
         "C06" => return Some(run_hx_plus_family("C06", tier)),
         "C07" => return Some(crate::c07::run_c07(tier)),
